@@ -683,6 +683,8 @@ pub fn worker(input: &Value) -> Value {
     let mut c = RunReport::default();
     let mut hist = BTreeSet::new();
     let mut samples = Vec::new();
+    let want_trace = input["trace"].as_bool().unwrap_or(false);
+    let mut trace: Vec<Value> = Vec::new();
     let mut run = shard;
     while run < runs {
         let sc = gen(seed, boot_seed, run, &pool);
@@ -691,6 +693,9 @@ pub fn worker(input: &Value) -> Value {
         }
         let rep = run_scenario(&sc);
         n += 1;
+        if want_trace {
+            trace.push(json!([run, trace_digest(&rep), sc.to_json()]));
+        }
         c.events += rep.events;
         c.prefixes_compared += rep.prefixes_compared;
         c.prefixes_inconclusive += rep.prefixes_inconclusive;
@@ -722,14 +727,18 @@ pub fn worker(input: &Value) -> Value {
     json!({"boot_seed": boot_seed, "runs": n, "events": c.events, "prefixes_compared": c.prefixes_compared, "prefixes_inconclusive": c.prefixes_inconclusive,
            "scoped_checked": c.scoped_checked, "again_checked": c.again_checked, "hostcalls": c.hostcalls, "hostcalls_rejected_both": c.hostcalls_rejected_both,
            "variables_compared": c.variables_compared, "hist_digests": hist.iter().map(|d| format!("{d:016x}")).collect::<Vec<_>>(),
-           "sessions_in_pool": pool.len(), "violations": violations, "harness_errors": harness_errors, "samples": samples})
+           "sessions_in_pool": pool.len(), "violations": violations, "harness_errors": harness_errors, "samples": samples, "trace": trace})
+}
+
+pub fn trace_digest(rep: &RunReport) -> String {
+    format!("{:016x}", digest(&format!("{:?}#{:?}", rep.log, rep.violation)))
 }
 
 pub fn single(input: &Value) -> Value {
     let sc = Scenario::from_json(input);
     crate::boot::boot(sc.boot_seed);
     let rep = run_scenario(&sc);
-    json!({"violation": rep.violation.as_ref().map(|(c, d)| json!([c, d])), "log": rep.log, "harness_error": rep.harness_error})
+    json!({"violation": rep.violation.as_ref().map(|(c, d)| json!([c, d])), "log": rep.log, "harness_error": rep.harness_error, "trace_digest": trace_digest(&rep)})
 }
 
 /// ddmin over statements (all fed one by one afterwards), then drop the extras.
